@@ -6,67 +6,41 @@ import CrabProofs.Lemmas.CongruenceBits
 Property theorems only (helper lemmas live in `CrabProofs/Lemmas/Congruence*.lean`,
 `ZNumBits.lean`).  `Crab.Cong` is the branch-by-branch model of the class
 (`CrabModel/Scalar/Congruence.lean`); `Cong.mem k c` is `k ∈ γ(c)`: `c` is not bottom and
-`c.a ∣ k - c.b` (so `k = c.b` when `c.a = 0`).  All statements quantify over *all* values
-(any modulus, also negative, any residue, also not reduced, bottom included) and all integers.
+`c.a ∣ k - c.b` (so `k = c.b` when `c.a = 0`).  Unless a hypothesis `WF` appears, a statement
+quantifies over *all* values (any modulus, any residue, also not in standard form, bottom
+included) and all integers.
 
 Concrete semantics (fixed by the project): `sdiv`/`srem` truncate (`Int.tdiv`/`Int.tmod`),
 a zero divisor has no successor (hypothesis `b ≠ 0`), `shl k` is `* 2^k`, `ashr k`/`lshr k` are
 the floor division by `2^k` (`k ≥ 0`; `lshr` only for a non-negative left operand, where it
-coincides with `ashr`), `and/or/xor` are `ZNum.land/lor/lxor`.
+coincides with `ashr`), `and/or/xor` are `ZNum.land/lor/lxor`.  Shift amounts (and, for `Shl`,
+the modulus of the class of amounts) are below `2^64`: `z_number::operator<<` shifts by
+`mpz_get_ui` of the amount.
 
-The code as it is violates the statement for `&`, `/`, `%`, `Shl` and raises CRAB_ERROR in `<=`
-and `%`: those are stated as `…_Statement`, proved on an explicit decidable part of the domain
-(`…_partial`) and refuted on a concrete witness (`…_counterexample`).
+History: the tree used to violate the statement for `<=` (CRAB_ERROR), `&`, `/`, `%`, `Shl`
+(counterexamples recorded in /verif/corpus/h_cong/defects.ops); after the "fix:" commits on
+`congruence_impl.hpp` every statement below holds in full.
 -/
 open Crab Crab.Cong
+
+/-! ## standard form -/
+
+/-- the normalising constructor produces the standard form `a ≥ 0`, `0 ≤ b < a` -/
+theorem C08.cg_mk_wf (a b : Int) : WF (mk' a b) := wf_mk' a b
+/-- and denotes the class it is given -/
+theorem C08.cg_mk_exact (a b k : Int) : mem k (mk' a b) ↔ a ∣ k - b := mem_mk' k a b
 
 /-! ## order -/
 
 /-- a yes answer of `operator<=` is an inclusion of concretisations -/
-theorem C08.cg_leq_sound (c d : Cong) (h : leq c d = some true) (k : Int) (hk : mem k c) : mem k d :=
+theorem C08.cg_leq_sound (c d : Cong) (h : leq c d = true) (k : Int) (hk : mem k c) : mem k d :=
   leq_sound h hk
-theorem C08.cg_leq_refl (c : Cong) : leq c c = some true := leq_refl c
-theorem C08.cg_bot_leq (c d : Cong) (h : c.isBot = true) : leq c d = some true := leq_of_isBot h d
-theorem C08.cg_leq_top (c : Cong) : leq c top = some true := leq_top c
-
-/-- `operator<=` never raises CRAB_ERROR — false for the code as it is -/
-def C08.cg_leq_defined_Statement : Prop := ∀ c d : Cong, WF c → WF d → (leq c d).isSome = true
-
-/-- it is defined unless a class (non-constant) is compared with a constant of another residue -/
-theorem C08.cg_leq_defined_partial (c d : Cong)
-    (h : c.isBot = true ∨ d.isBot = true ∨ c.a = 0 ∨ d.a ≠ 0 ∨ Int.tmod c.b c.a = Int.tmod d.b c.a) :
-    (leq c d).isSome = true := by
-  unfold leq leqFinal
-  cases hc : c.isBot
-  · cases hd : d.isBot
-    · simp only [Bool.false_eq_true, if_false]
-      rcases h with h | h | h | h | h
-      · simp [hc] at h
-      · simp [hd] at h
-      · by_cases hda : d.a = 0 <;> simp [h, hda]
-        split <;> simp
-      · by_cases hca : c.a = 0 <;> simp [h, hca]
-        split <;> simp
-      · by_cases hca : c.a = 0 <;> by_cases hda : d.a = 0 <;> simp [hca, hda, h]
-        split <;> simp
-    · simp
-  · simp
-
-/-- `(2Z+0) <= 1` evaluates `m_a % 0` : CRAB_ERROR("z_number: division by zero") -/
-theorem C08.cg_leq_defined_counterexample : ¬ C08.cg_leq_defined_Statement := by
-  intro h
-  exact absurd (h (mk' 2 0) (ofInt 1) (by decide) (by decide)) (by decide)
-
-/-- `operator<=` decides inclusion — false for the code as it is (truncated residues) -/
-def C08.cg_leq_complete_Statement : Prop :=
-  ∀ c d : Cong, WF c → WF d → (∀ k, mem k c → mem k d) → leq c d = some true
-
-/-- `2Z-1` (= `C(-1)|C(1)`) and `2Z+1` denote the same set but are not `<=` -/
-theorem C08.cg_leq_complete_counterexample : ¬ C08.cg_leq_complete_Statement := by
-  intro h
-  have := h ⟨false, 2, -1⟩ ⟨false, 2, 1⟩ (by decide) (by decide)
-    (by intro k hk; have h2 : (2 : Int) ∣ k - (-1) := hk.2; exact ⟨rfl, (by show (2 : Int) ∣ k - 1; omega)⟩)
-  exact absurd this (by decide)
+/-- `operator<=` decides the inclusion (no hypothesis on the representation) -/
+theorem C08.cg_leq_complete (c d : Cong) (h : ∀ k, mem k c → mem k d) : leq c d = true :=
+  leq_complete h
+theorem C08.cg_leq_refl (c : Cong) : leq c c = true := leq_refl c
+theorem C08.cg_bot_leq (c d : Cong) (h : c.isBot = true) : leq c d = true := leq_of_isBot h d
+theorem C08.cg_leq_top (c : Cong) : leq c top = true := leq_top c
 
 /-! ## join, widening, narrowing -/
 
@@ -84,26 +58,14 @@ theorem C08.cg_narrow_sound (c d : Cong) (k : Int) (hc : mem k c) (hd : mem k d)
 
 /-! ## meet -/
 
-/-- `operator&` contains the intersection — false for the code as it is -/
-def C08.cg_meet_sound_Statement : Prop :=
-  ∀ c d : Cong, WF c → WF d → ∀ k : Int, mem k c → mem k d → mem k (meet c d)
+/-- `operator&` is exactly the intersection (Chinese remainder through the extended Euclid
+    helper `bezout`) -/
+theorem C08.cg_meet_exact (c d : Cong) (k : Int) : mem k (meet c d) ↔ (mem k c ∧ mem k d) :=
+  ⟨meet_exact, fun ⟨h1, h2⟩ => meet_sound h1 h2⟩
 
-/-- it does when an operand is bottom or a constant, or the residues are recognised as
-    compatible (`b % g == b' % g`) and already congruent modulo the lcm (`Cong.meetSafe`) -/
-theorem C08.cg_meet_sound_partial (c d : Cong) (hs : meetSafe c d) (k : Int) (hc : mem k c)
-    (hd : mem k d) : mem k (meet c d) := meet_sound_of_safe hs hc hd
-
-/-- `(2Z+1) & (3Z+0) = 6Z+1`, which misses 3 (the representative `max(b,b')` is not a common
-    solution) -/
-theorem C08.cg_meet_sound_counterexample : ¬ C08.cg_meet_sound_Statement := by
-  intro h
-  exact absurd (h ⟨false, 2, 1⟩ ⟨false, 3, 0⟩ (by decide) (by decide) 3 (by decide) (by decide)) (by decide)
-
-/-- `(2Z-1) & (2Z+1) = bottom` although both are the odd numbers (truncated residues
-    `-1 % 2 ≠ 1 % 2`) -/
-theorem C08.cg_meet_sound_counterexample_bottom : ¬ C08.cg_meet_sound_Statement := by
-  intro h
-  exact absurd (h ⟨false, 2, -1⟩ ⟨false, 2, 1⟩ (by decide) (by decide) 1 (by decide) (by decide)) (by decide)
+/-- `bezout(x, y, u)` returns a common divisor `g` of `x` and `y` with `x*u ≡ g (mod y)` -/
+theorem C08.cg_bezout_spec (x y : Int) :
+    (bezout x y).1 ∣ x ∧ (bezout x y).1 ∣ y ∧ y ∣ x * (bezout x y).2 - (bezout x y).1 := bezout_spec x y
 
 /-! ## ring operations -/
 
@@ -115,80 +77,16 @@ theorem C08.cg_neg_sound (x : Cong) (a : Int) (ha : mem a x) : mem (-a) (neg x) 
 theorem C08.cg_mul_sound (x y : Cong) (a b : Int) (ha : mem a x) (hb : mem b y) :
     mem (a * b) (mul x y) := mul_sound ha hb
 
-/-! ## signed division and remainder -/
+/-! ## division and remainder -/
 
-/-- `operator/` contains every truncated quotient — false for the code as it is -/
-def C08.cg_div_sound_Statement : Prop :=
-  ∀ x y : Cong, WF x → WF y → ∀ a b : Int, mem a x → mem b y → b ≠ 0 → mem (Int.tdiv a b) (div x y)
+/-- `operator/` (SDiv) contains every truncated quotient -/
+theorem C08.cg_div_sound (x y : Cong) (a b : Int) (ha : mem a x) (hb : mem b y) (hb0 : b ≠ 0) :
+    mem (Int.tdiv a b) (div x y) := div_sound ha hb hb0
 
-/-- sound except (1) a non-zero constant divided by a class (`Cong.divCstByClass`) and
-    (2) a class divided by a constant that divides the modulus but not the residue
-    (`Cong.divClassByCst`), where it is still sound for non-negative dividends with a
-    non-negative residue -/
-theorem C08.cg_div_sound_partial (x y : Cong) (a b : Int) (ha : mem a x) (hb : mem b y) (hb0 : b ≠ 0)
-    (h1 : ¬ divCstByClass x y) (h2 : ¬ divClassByCst x y ∨ (0 ≤ a ∧ 0 ≤ x.b)) :
-    mem (Int.tdiv a b) (div x y) := div_sound_of_safe ha hb hb0 h1 h2
-
-/-- `(4Z+3) / 2 = 2Z+1` but `-1 / 2 = 0` -/
-theorem C08.cg_div_sound_counterexample : ¬ C08.cg_div_sound_Statement := by
-  intro h
-  exact absurd (h ⟨false, 4, 3⟩ (ofInt 2) (by decide) (by decide) (-1) 2 (by decide) (by decide) (by decide))
-    (by decide)
-
-/-- `7 / (2Z+1) = 0` but `7 / 1 = 7` -/
-theorem C08.cg_div_sound_counterexample_cst : ¬ C08.cg_div_sound_Statement := by
-  intro h
-  exact absurd (h (ofInt 7) ⟨false, 2, 1⟩ (by decide) (by decide) 7 1 (by decide) (by decide) (by decide))
-    (by decide)
-
-/-- `operator%` (SRem) contains every truncated remainder and does not raise CRAB_ERROR —
-    false for the code as it is -/
-def C08.cg_srem_sound_Statement : Prop :=
-  ∀ x y : Cong, WF x → WF y → ∀ a b : Int, mem a x → mem b y → b ≠ 0 →
-    ∃ r, srem x y = some r ∧ mem (Int.tmod a b) r
-
-/-- whenever it answers, the answer is sound outside the two excluded shapes of `/` -/
-theorem C08.cg_srem_sound_partial (x y r : Cong) (a b : Int) (ha : mem a x) (hb : mem b y) (hb0 : b ≠ 0)
-    (h1 : ¬ divCstByClass x y) (h2 : ¬ divClassByCst x y ∨ (0 ≤ a ∧ 0 ≤ x.b))
-    (hr : srem x y = some r) : mem (Int.tmod a b) r := srem_sound_of_safe ha hb hb0 h1 h2 hr
-
-/-- it answers (no CRAB_ERROR) unless a constant is divided by a class -/
-theorem C08.cg_srem_defined_partial (x y : Cong) (h : x.isBot = true ∨ y.isBot = true ∨ x.a ≠ 0 ∨ y.a = 0) :
-    (srem x y).isSome = true := by
-  unfold srem
-  cases hx : x.isBot
-  · cases hy : y.isBot
-    · simp only [Bool.or_self, Bool.false_eq_true, if_false]
-      split
-      · rfl
-      · split
-        · rfl
-        · split
-          · split <;> rfl
-          · rename_i hya
-            rcases h with h | h | h | h
-            · simp [hx] at h
-            · simp [hy] at h
-            · simp [h]
-            · exact absurd h hya
-    · simp
-  · simp
-
-/-- `(4Z+3) % 2 = 1` but `-1 % 2 = -1` -/
-theorem C08.cg_srem_sound_counterexample : ¬ C08.cg_srem_sound_Statement := by
-  intro h
-  obtain ⟨r, h1, h2⟩ := h ⟨false, 4, 3⟩ (ofInt 2) (by decide) (by decide) (-1) 2 (by decide) (by decide) (by decide)
-  have : r = mk' 0 1 := by
-    have e : srem ⟨false, 4, 3⟩ (ofInt 2) = some (mk' 0 1) := by decide
-    rw [e] at h1; cases h1; rfl
-  rw [this] at h2; exact absurd h2 (by decide)
-
-/-- `7 % (2Z+1)` reaches CRAB_ERROR("unreachable") -/
-theorem C08.cg_srem_sound_counterexample_error : ¬ C08.cg_srem_sound_Statement := by
-  intro h
-  obtain ⟨r, h1, _⟩ := h (ofInt 7) ⟨false, 2, 1⟩ (by decide) (by decide) 7 1 (by decide) (by decide) (by decide)
-  have e : srem (ofInt 7) ⟨false, 2, 1⟩ = none := by decide
-  rw [e] at h1; cases h1
+/-- `operator%` (SRem) contains every truncated remainder (and cannot raise CRAB_ERROR: the
+    model is total) -/
+theorem C08.cg_srem_sound (x y : Cong) (a b : Int) (ha : mem a x) (hb : mem b y) (hb0 : b ≠ 0) :
+    mem (Int.tmod a b) (srem x y) := srem_sound ha hb hb0
 
 /-- `UDiv` / `URem` answer top: everything is contained -/
 theorem C08.cg_udiv_sound (x y : Cong) (k : Int) : mem k (udiv x y) := mem_top k
@@ -214,31 +112,40 @@ theorem C08.cg_ashr_sound (x y : Cong) (a k : Int) (ha : mem a x) (hk : mem k y)
 theorem C08.cg_lshr_sound (x y : Cong) (a k : Int) (ha : mem a x) (hk : mem k y) (hk0 : 0 ≤ k)
     (hk1 : k < 2 ^ 64) : mem (a / 2 ^ k.toNat) (lshr x y) := lshr_sound ha hk hk0 hk1
 
-/-- `Shl` contains `a * 2^k` for all members and all non-negative amounts — false for the code -/
-def C08.cg_shl_sound_Statement : Prop :=
-  ∀ x y : Cong, WF x → WF y → ∀ a k : Int, mem a x → mem k y → 0 ≤ k → k < 2 ^ 64 →
-    mem (a * 2 ^ k.toNat) (shl x y)
+/-- `Shl`: `a * 2^k` for every member `a` and every non-negative amount `k` of a class of
+    amounts in standard form (what the constructor guarantees, `cg_mk_wf`) whose modulus
+    fits a machine word -/
+theorem C08.cg_shl_sound (x y : Cong) (a k : Int) (hw : WF y) (hya : y.a < 2 ^ 64)
+    (ha : mem a x) (hk : mem k y) (hk0 : 0 ≤ k) (hk1 : k < 2 ^ 64) :
+    mem (a * 2 ^ k.toNat) (shl x y) := by
+  apply shl_sound_of_safe ha hk hk0
+  unfold shlSafe
+  obtain ⟨w1, w2, _⟩ := hw
+  by_cases h0 : y.a = 0
+  · left
+    have := eq_of_mem_cst hk h0
+    exact ⟨h0, by omega⟩
+  · right
+    obtain ⟨w3, w4⟩ := w2 h0
+    refine ⟨h0, w3, by omega, by omega⟩
 
-/-- sound for constant amounts below `2^64` and for classes whose residue is non-negative
-    and reduced and whose modulus is below `2^64` (`Cong.shlSafe`) -/
-theorem C08.cg_shl_sound_partial (x y : Cong) (a k : Int) (ha : mem a x) (hk : mem k y) (hk0 : 0 ≤ k)
-    (hs : shlSafe y) : mem (a * 2 ^ k.toNat) (shl x y) := shl_sound_of_safe ha hk hk0 hs
-
-/-- `1 << (3Z-1) = 14Z+2` (the code shifts by `|-1|`) but `1 << 2 = 4` -/
-theorem C08.cg_shl_sound_counterexample : ¬ C08.cg_shl_sound_Statement := by
+/-- the standard form is needed: on a class written with a residue outside `[0, a)` the code
+    would start from a wrong least amount (`3Z-1`, not constructible through the API) -/
+theorem C08.cg_shl_needs_wf : ¬ (∀ (x y : Cong) (a k : Int), mem a x → mem k y → 0 ≤ k → k < 2 ^ 64 →
+    mem (a * 2 ^ k.toNat) (shl x y)) := by
   intro h
-  exact absurd (h (ofInt 1) ⟨false, 3, -1⟩ (by decide) (by decide) 1 2 (by decide) (by decide) (by decide) (by decide))
-    (by decide)
+  exact absurd (h (ofInt 1) ⟨false, 3, -1⟩ 1 2 (by decide) (by decide) (by decide) (by decide)) (by decide)
 
 /-! ## non-vacuity: the hypotheses are met by non-trivial values -/
 
 example : mem 11 (mk' 4 3) ∧ mem (-6) (mk' 3 0) ∧ WF (mk' 4 3) ∧ mul (mk' 4 3) (mk' 3 0) = mk' 3 0 ∧
-    join (ofInt 3) (ofInt 7) = mk' 4 3 := by
+    join (ofInt 3) (ofInt 7) = mk' 4 3 ∧ join (ofInt (-1)) (ofInt 1) = mk' 2 1 := by
+  refine ⟨by decide, by decide, by decide, by decide, by decide, by decide⟩
+example : meet (mk' 2 1) (mk' 3 0) = mk' 6 3 ∧ meet (mk' 4 1) (mk' 6 1) = mk' 12 1 ∧
+    meet (mk' 4 1) (mk' 6 0) = bot ∧ mem 13 (mk' 4 1) ∧ mem 13 (mk' 6 1) := by
   refine ⟨by decide, by decide, by decide, by decide, by decide⟩
-example : meetSafe (mk' 4 1) (mk' 6 1) ∧ meet (mk' 4 1) (mk' 6 1) = mk' 12 1 ∧ mem 13 (mk' 4 1) ∧ mem 13 (mk' 6 1) := by
-  refine ⟨by decide, by decide, by decide, by decide⟩
-example : ¬ divCstByClass (mk' 6 4) (ofInt 2) ∧ ¬ divClassByCst (mk' 6 4) (ofInt 2) ∧
-    div (mk' 6 4) (ofInt 2) = mk' 3 2 ∧ mem (-8) (mk' 6 4) := by
-  refine ⟨by decide, by decide, by decide, by decide⟩
-example : shlSafe (mk' 3 2) ∧ mem 5 (mk' 3 2) ∧ shl (ofInt 1) (mk' 3 2) = mk' 28 4 := by
+example : div (mk' 6 4) (ofInt 2) = mk' 3 2 ∧ mem (-8) (mk' 6 4) ∧ div (mk' 4 3) (ofInt 2) = top ∧
+    srem (mk' 4 3) (ofInt 2) = mk' 2 1 ∧ srem (ofInt 7) (mk' 2 1) = top ∧ leq (mk' 2 0) (ofInt 1) = false := by
+  refine ⟨by decide, by decide, by decide, by decide, by decide, by decide⟩
+example : WF (mk' 3 2) ∧ mem 5 (mk' 3 2) ∧ shl (ofInt 1) (mk' 3 2) = mk' 28 4 := by
   refine ⟨by decide, by decide, by decide⟩
